@@ -734,3 +734,10 @@ def run(ctx, rep):
     rep.rule('C13.U', "an update made through one holder reaches every holder: setters of parameters that write into another parameter notify that parameter; shared dirty flags of tree models")
     check_type_registry(ctx, rep)
     check_updates_reach_every_holder(ctx, rep)
+    # C13.S — what a specification leaves behind: no factory classmethod changes state that hangs off the class (a default parsed from one specification would become the
+    # default of every object built later in the same process)
+    from sa import purity
+    rep.rule('C13.S', "no from_json / factory classmethod of the package changes class-level state")
+    ncs = purity.check_class_state(ctx, rep, 'C13.S')
+    if ncs < 80:
+        rep.incomplete('C13.S', '*', '', f"only {ncs} classmethods scanned")
